@@ -86,9 +86,9 @@ def verify(src, sid, prop):
             meta = json.load(open(os.path.join(src, "meta.json")))
         except Exception as e:
             meta = {"note": "agent's meta.json unreadable: %r" % (e,)}
-        out = {"property": prop, "breaks": meta.get("summary"), "needs_to_manifest": meta.get("needs"), "files": meta.get("files"),
+        out = {"property": prop, "breaks": meta.get("summary") or meta.get("breaks"), "needs_to_manifest": meta.get("needs") or meta.get("needs_to_manifest"), "kind": meta.get("kind"), "files": meta.get("files"),
                "author": "independent sub-agent given only the property text and a scratch worktree",
-               "agent_ran": meta.get("ran"), "confirmed": rec}
+               "agent_ran": meta.get("ran") or meta.get("agent_ran"), "confirmed": rec}
         json.dump(out, open(os.path.join(dst, "meta.json"), "w"), indent=1)
     return rec
 
